@@ -622,6 +622,29 @@ def r19_14(ctx, rep):
         raise MechanismMissing(R, "fewer than 3 file names built from the model's name found in save_model / load_model")
 
 
+@SPEC.rule(
+    "R19.15",
+    "a cached variable has the type and the aliases of the fresh one: Variable.to_dict stores `self.python_type` and `self.aliases` themselves "
+    "under their own keys — once — and Variable.from_dict hands exactly those entries back to the constructor / the attribute; a translation "
+    "table in between (type names, with bool tested after int) maps two types onto one",
+)
+def r19_15(ctx, rep):
+    R = "R19.15"
+    td = ctx.func(MODEL, "Variable.to_dict", R)
+    fd = ctx.func(MODEL, "Variable.from_dict", R)
+    for f in ("python_type", "aliases"):
+        stores = [st for st in ast.walk(td) if isinstance(st, ast.Assign) and isinstance(st.targets[0], ast.Subscript) and const_str(st.targets[0].slice) == f]
+        rep.ob(R, MODEL + ":Variable.to_dict", "%s stored as it is" % f, len(stores) == 1 and norm(stores[0].value) == "self." + f,
+               "found %s" % ([norm(s_)[:60] for s_ in stores] or "no store"))
+    dparam = fd.args.args[1].arg if len(fd.args.args) > 1 else "d"
+    ctor = [c for c in calls(fd) if isinstance(c.func, ast.Name) and c.func.id == fd.args.args[0].arg and len(c.args) >= 2]
+    rep.ob(R, MODEL + ":Variable.from_dict", "python_type handed back as it was stored", bool(ctor) and norm(ctor[0].args[1]) == "%s['python_type']" % dparam,
+           "the constructor gets `%s` as the type" % (norm(ctor[0].args[1])[:60] if ctor else "?"))
+    al = [st for st in ast.walk(fd) if isinstance(st, ast.Assign) and isinstance(st.targets[0], ast.Attribute) and st.targets[0].attr == "aliases"]
+    rep.ob(R, MODEL + ":Variable.from_dict", "aliases handed back as they were stored", len(al) == 1 and norm(al[0].value) == "%s['aliases']" % dparam,
+           "found %s" % [norm(a)[:60] for a in al])
+
+
 # -- seeded variants ---------------------------------------------------------
 from ._mut import delete_stmt_where, replace_in_func  # noqa: E402
 
